@@ -77,24 +77,26 @@ theorem keeps_of_same {f : St â†’ St} (hpv : âˆ€ s, (f s).pv = s.pv) (hproto : â
     Rel KeepsCoherent (modifySt f) :=
   Rel.modifySt f fun s h => by simpa [Coherent, hpv s, hproto s] using h
 
-theorem stepRel : StepRel KeepsCoherent where
-  pre := OnSt.preO (fun _ h => h) (fun h1 h2 h => h2 (h1 h))
+theorem preO : PreO KeepsCoherent := OnSt.preO (fun _ h => h) (fun h1 h2 h => h2 (h1 h))
+
+theorem stepRel (m : Msg) : StepRel KeepsCoherent m where
+  pre := preO
   write := fun line => Rel.transportWrite (fun _ h => h) line
   setNode := fun _ _ => keeps_of_same (fun _ => rfl) (fun _ => rfl)
-  erase := fun _ _ => keeps_of_same (fun s => by split <;> rfl) (fun s => by split <;> rfl)
-  mark := fun _ => keeps_of_same (fun _ => rfl) (fun _ => rfl)
-  unmark := fun _ => keeps_of_same (fun s => by split <;> rfl) (fun s => by split <;> rfl)
-  version := fun payload v h => Rel.modifySt _ fun s _ => by simpa [Coherent] using getProtocolE_ok h
+  erase := fun _ _ _ => keeps_of_same (fun s => by split <;> rfl) (fun s => by split <;> rfl)
+  mark := keeps_of_same (fun _ => rfl) (fun _ => rfl)
+  unmark := keeps_of_same (fun s => by split <;> rfl) (fun s => by split <;> rfl)
+  version := fun v h => Rel.modifySt _ fun s _ => by simpa [Coherent] using getProtocolE_ok h
 
 theorem park_keeps (m : Msg) : Rel KeepsCoherent (parkMod m) := keeps_of_same (fun _ => rfl) (fun _ => rfl)
 
 /-- **Coherence is an invariant of receiving**, whatever the line, the outcome (also a rejected
 version report or any other error) and the write faults. -/
 theorem coherent_recv (env : Env) (line : Str) (w : W) (h : Coherent w.st) : Coherent (recv env line w).2.st :=
-  (rel_recv stepRel (ParkOK.of_all park_keeps) env line).step w h
+  (rel_recv preO stepRel (ParkOK.of_all park_keeps) env line).step w h
 
 theorem coherent_send (obj : Option Msg) (b : Bool) (w : W) (h : Coherent w.st) : Coherent (apiSend obj b w).2.st :=
-  (rel_apiSend stepRel park_keeps obj b).step w h
+  (rel_apiSend (stepRel default) park_keeps obj b).step w h
 
 theorem coherent_step (st : St) (op : Op) (h : Coherent st) : Coherent (stepOp st op).1 := by
   cases op with
